@@ -4,11 +4,11 @@ CONSTANTS
   Titles <- TitlesTwo
   Sections <- SecTwo
   Subsections <- SubTwo
-  EmitSet <- EmitAllKinds
+  EmitSet <- EmitRich
   ExpandTexts <- ExpandMsgs
   ParseTexts <- ParseMsgs
   Markers <- MarkersNone
-  MaxMsgs = 2
+  MaxMsgs = 3
   MaxMarkers = 0
 INVARIANT TypeOK
 INVARIANT StampsTitleSection
